@@ -35,3 +35,5 @@ let handle (toks : string list) : string =
       if res = b01 spec then "ok nt"
       else Printf.sprintf "chk %s_%s impl=%s spec=%s" op ctx res (b01 spec)
   | _ -> "bad line"
+
+let () = Registry.register "C13" handle
